@@ -28,7 +28,15 @@ pub fn run(fields: &[&str], cases: &mut impl Write, out: &mut impl Write, _line:
         "ARCH" => run_arch(fields, out),
         "CLI" => run_cli(fields, out),
         "CONV" => run_conv(fields, out),
-        "LOADF" => run_loadf(fields, out),
+        "LOADF" => {
+            writeln!(cases, "{_line}").unwrap();
+            run_loadf(fields, out)
+        }
+        "LABEL" => {
+            writeln!(cases, "{_line}").unwrap();
+            run_label(fields, out)
+        }
+        "CONVM" => run_convm(fields, cases, out),
         "EQV" => run_eqv(fields, out),
         _ => writeln!(out, "{id} SKIP unknown-request").unwrap(),
     }));
@@ -789,4 +797,169 @@ fn run_eqv(fields: &[&str], out: &mut impl Write) {
     } else {
         writeln!(out, "{id} ERR {}", clean(&bad.join("; "))).unwrap();
     }
+}
+
+/// LABEL id label : write one set under the label, reload: which label comes back?
+fn run_label(fields: &[&str], out: &mut impl Write) {
+    let id = fields[1];
+    let label = unhex(fields[2]);
+    let bn = BooleanNetwork::try_from("a -> a\n").unwrap();
+    let graph = get_extended_symbolic_graph(&bn, 0).unwrap();
+    let mut sets = HashMap::new();
+    sets.insert(label.clone(), graph.mk_unit_colored_vertices());
+    let path = format!("{}/label-{}-{}.zip", work_dir(), std::process::id(), id);
+    if let Err(e) = build_result_archive(sets, &path, bn.to_string().as_str(), vec![]) {
+        writeln!(out, "{id} SKIP write:{}", clean(&e.to_string())).unwrap();
+        return;
+    }
+    let r = load_bdd_bundle(&path, graph.symbolic_context());
+    std::fs::remove_file(&path).ok();
+    match r {
+        Ok(m) => {
+            if m.is_empty() {
+                writeln!(out, "{id} OK skipped").unwrap();
+            } else {
+                let mut ls: Vec<String> = m.keys().map(|k| hex(k)).collect();
+                ls.sort();
+                writeln!(out, "{id} OK {}", ls.join(",")).unwrap();
+            }
+        }
+        Err(_) => writeln!(out, "{id} ERR StripSuffix").unwrap(),
+    }
+}
+
+fn fn_sexpr(bn: &BooleanNetwork, f: &biodivine_lib_param_bn::FnUpdate) -> String {
+    use biodivine_lib_param_bn::{BinaryOp as B, FnUpdate as F};
+    match f {
+        F::Const(b) => format!("(c {})", if *b { 1 } else { 0 }),
+        F::Var(v) => format!("(v {})", v.to_index()),
+        F::Not(g) => format!("(n {})", fn_sexpr(bn, g)),
+        F::Binary(op, l, r) => {
+            let o = match op {
+                B::And => "and",
+                B::Or => "or",
+                B::Xor => "xor",
+                B::Iff => "iff",
+                B::Imp => "imp",
+            };
+            format!("(b {o} {} {})", fn_sexpr(bn, l), fn_sexpr(bn, r))
+        }
+        F::Param(id, args) => {
+            let name = bn.get_parameter(*id).get_name().clone();
+            let a: Vec<String> = args.iter().map(|x| fn_sexpr(bn, x)).collect();
+            if a.is_empty() {
+                format!("(p {})", hex(&name))
+            } else {
+                format!("(p {} {})", hex(&name), a.join(" "))
+            }
+        }
+    }
+}
+
+/// CONVM id aeon-text : the converter's output function of every variable, as a truth table
+/// over (original variables, its fresh constants sorted by name) -- compared with the
+/// extracted Coq model of explode/flatten run on the same input functions.
+fn run_convm(fields: &[&str], cases: &mut impl Write, out: &mut impl Write) {
+    let id = fields[1];
+    let text = unhex(fields[2]);
+    let bn = match BooleanNetwork::try_from(text.as_str()) {
+        Ok(b) => b,
+        Err(e) => {
+            writeln!(out, "{id} SKIP network:{}", clean(&e)).unwrap();
+            return;
+        }
+    };
+    let (ok, stdout) = match run_bin("convert-aeon-to-bnet", &[], Some(&text)) {
+        Ok(x) => x,
+        Err(e) => {
+            writeln!(out, "{id} SKIP {}", clean(&e)).unwrap();
+            return;
+        }
+    };
+    if !ok {
+        writeln!(out, "{id} ERR converter failed: {}", clean(&stdout)).unwrap();
+        return;
+    }
+    let bn2 = match BooleanNetwork::try_from_bnet(stdout.as_str()) {
+        Ok(b) => b,
+        Err(e) => {
+            writeln!(out, "{id} ERR output does not load as bnet: {}", clean(&e)).unwrap();
+            return;
+        }
+    };
+    let ctx2 = SymbolicContext::new(&bn2).unwrap();
+    let names1: Vec<String> = bn.variables().map(|v| bn.get_variable_name(v).clone()).collect();
+    let present: Vec<usize> = (0..names1.len())
+        .filter(|i| bn2.as_graph().find_variable(&names1[*i]).is_some())
+        .collect();
+    // case line for the model
+    let mut items: Vec<String> = Vec::new();
+    for v in bn.variables() {
+        let regs: Vec<String> = bn.regulators(v).iter().map(|r| r.to_index().to_string()).collect();
+        let fx = match bn.get_update_function(v) {
+            Some(f) => fn_sexpr(&bn, f),
+            None => "-".to_string(),
+        };
+        items.push(format!(
+            "{}|{}|{}",
+            v.to_index(),
+            if regs.is_empty() { "-".to_string() } else { regs.join(";") },
+            fx
+        ));
+    }
+    writeln!(
+        cases,
+        "CONVM\t{id}\t{}\t{}\t{}",
+        names1.iter().map(|n| hex(n)).collect::<Vec<_>>().join(","),
+        present.iter().map(|i| i.to_string()).collect::<Vec<_>>().join(","),
+        items.join(",")
+    )
+    .unwrap();
+    // implementation side
+    let mut res: Vec<String> = Vec::new();
+    for v in bn.variables() {
+        let nm = bn.get_variable_name(v);
+        let has_fn = !bn.regulators(v).is_empty() || bn.get_update_function(v).is_some();
+        if !has_fn {
+            continue;
+        }
+        let v2 = match bn2.as_graph().find_variable(nm) {
+            Some(x) => x,
+            None => {
+                res.push(format!("{}:MISSING", hex(nm)));
+                continue;
+            }
+        };
+        let f2 = match bn2.get_update_function(v2) {
+            Some(f) => ctx2.mk_fn_update_true(f),
+            None => {
+                res.push(format!("{}:NOFN", hex(nm)));
+                continue;
+            }
+        };
+        let mut fresh: Vec<String> = bn2
+            .variables()
+            .map(|x| bn2.get_variable_name(x).clone())
+            .filter(|n| !names1.contains(n))
+            .filter(|n| {
+                f2.support_set()
+                    .contains(&ctx2.get_state_variable(bn2.as_graph().find_variable(n).unwrap()))
+            })
+            .collect();
+        fresh.sort();
+        let mut order: Vec<BddVariable> = present
+            .iter()
+            .map(|i| ctx2.get_state_variable(bn2.as_graph().find_variable(&names1[*i]).unwrap()))
+            .collect();
+        for n in &fresh {
+            order.push(ctx2.get_state_variable(bn2.as_graph().find_variable(n).unwrap()));
+        }
+        res.push(format!(
+            "{}:{}:{}",
+            hex(nm),
+            fresh.iter().map(|n| hex(n)).collect::<Vec<_>>().join(";"),
+            bits_of(&f2, &order)
+        ));
+    }
+    writeln!(out, "{id} OK {}", res.join(",")).unwrap();
 }
